@@ -89,7 +89,10 @@ MULTILINES = [b"text:\nhello\n.", b"text:\n.", b"text: \nA\nB\n.",
               # body lines that nearly are the terminator: a dot followed by blanks, a dot
               # after a blank, a dot followed by text
               b"text:\n. \nafter dot-blank\n.", b"text:\n.\t\n.", b"text:\n.\x0c\n.",
-              b"text:\n .\n.", b"text:\r\n. \r\n.\x0b\r\n."]
+              b"text:\n .\n.", b"text:\r\n. \r\n.\x0b\r\n.",
+              # the keyword in other letter cases (the judge leaves these undecided; whatever
+              # the parser accepts is still in C03/C04's domain)
+              b"Text:\nx\n.", b"TEXT:\r\nx\r\n.", b"tExT:\nx\n."]
 
 
 class ValueGen:
